@@ -103,9 +103,13 @@ class SStr:
             elif isinstance(x, Fmt) and isinstance(y, Fmt):
                 if x.spec != y.spec:
                     raise Unsupported('format specs differ in comparison')
-                conds.append(x.value == y.value if not (isinstance(x.value, SBytesLike) or isinstance(y.value, SBytesLike)) else x.value == y.value)
+                conds.append(x.value == y.value)
+            elif isinstance(x, Atom) and isinstance(y, Atom):
+                conds.append(mk_bool(x.z3() == y.z3()))
             else:
-                return match_against_literal(pa, pb) if (all(isinstance(p, str) for p in pa) or all(isinstance(p, str) for p in pb)) else _unsup(pa, pb)
+                if all(isinstance(p, str) for p in pa) or all(isinstance(p, str) for p in pb):
+                    return match_against_literal(pa, pb)
+                return _unsup(pa, pb)
         return vand(*conds)
 
 
